@@ -370,7 +370,67 @@ def run(ctx, prog):
             all(not any(x in (inn.reach([tg], avoid_blocks=h_asg) | ({tg} - set(h_asg))) for x in rets) for _, tg in empty_e)
         ctx.inst('C20.R5', inn.short, 'new key linked behind the old tail, becomes tail, and head when the list was empty', ok,
                  'node = %s; old_tail = %s; tail assignment on every path after the insert: %s; head only/always on the empty edge' % (node_arg[:60], oto, not any(x in after_ins for x in rets)))
+    configured_bounds(ctx, prog)
     ctx.stat('functions_analysed', len(set(i['key'].split(' | ')[1] for i in ctx.instances)))
+
+
+# owner type, field that holds the bound (or the configuration struct that holds it), fields that must never be assigned once the owner exists
+BOUND_HOLDERS = [
+    ('vector_cache::VectorCache', 'capacity', ['VectorCache.capacity']),
+    ('query_hash_cache::QueryHashCache', 'capacity', ['QueryHashCache.capacity']),
+    ('tiered_engine::TieredEngine', 'config', ['TieredEngine.config', 'TieredEngineConfig.hot_tier_hard_limit']),
+    ('semantic_adapter::SemanticAdapter', 'config', ['SemanticAdapter.config', 'SemanticConfig.max_cached_embeddings']),
+]
+
+
+def _as_given(e):
+    """the origin is a parameter of the function, possibly with OTHER fields of it filled in afterwards (`set` alternatives) — returns the parameter or None"""
+    alts = [a for a in flow.top_alternatives(e) if a[0] != 'set']
+    while len(alts) == 1 and alts[0][0] == 'cast':
+        alts = [alts[0][1]]
+    return alts[0] if len(alts) == 1 and alts[0][0] == 'arg' else None
+
+
+def configured_bounds(ctx, prog):
+    rid = 'C20.R6'
+    ctx.rule(rid, 'the bound the guard compares with is the configured one. R2 decides `len − bound ≥ 0 ⇒ evict / drain` against a FIELD (VectorCache.capacity, '
+                  'QueryHashCache.capacity, TieredEngine.config.hot_tier_hard_limit, SemanticAdapter.config.max_cached_embeddings); that field is the number the caller '
+                  'configured only if every constructor of the owner stores its own parameter there unchanged, the engine\'s cache strategies hand their capacity '
+                  'parameter to VectorCache::new unchanged, and nothing assigns the field afterwards. A constructor that rounds, scales or "normalises" the value '
+                  '(next_power_of_two, max(hard, 2·soft)) lets the container hold more than was configured although every guard is intact')
+    for owner, fld, frozen in BOUND_HOLDERS:
+        n = 0
+        for b in sorted(prog.bodies.values(), key=lambda x: x.id):
+            if b.kind == 'Promoted' or ' as core::clone::Clone>::clone' in b.id:
+                continue
+            for i, blk in enumerate(b.blocks):
+                for st in blk['s']:
+                    rv = st.get('rv')
+                    if not (rv and rv['k'] == 'agg' and rv.get('ak') == 'adt' and rv.get('adt', '').endswith(owner) and fld in (rv.get('fields') or [])):
+                        continue
+                    n += 1
+                    e = flow.Origin(b).of_operand(rv['ops'][rv['fields'].index(fld)])
+                    a = _as_given(e)
+                    who = b.short.split('::{')[0]
+                    k = sum(1 for x in ctx.instances if x.get('config') == ctx.config and x['rule'] == rid and x['key'].startswith('%s | %s | %s.%s #' % (rid, who, owner.split('::')[-1], fld)))
+                    ctx.inst(rid, who, '%s.%s #%d is the constructor\'s parameter, unchanged' % (owner.split('::')[-1], fld, k), a is not None,
+                             '%s = %s%s' % (fld, flow.render(e)[:160], '' if a is not None else ' — the stored bound is computed from the configured value, not the value itself: the guards of R2 '
+                                                                                             'keep the container within a bound nobody configured'))
+        ctx.floor(rid, 'constructions of %s' % owner.split('::')[-1], n, 1, '')
+        for fz in frozen:
+            ws = sorted(set(b.short.split('::{')[0] for b in prog.bodies.values() if b.kind != 'Promoted' and util.assign_blocks(b, re.escape(fz) + '$')))
+            ctx.inst(rid, fz, 'never assigned after construction', not ws, 'assignments in: %s%s' % (ws, '' if not ws else
+                     ' — the value the guard of R2 reads is rewritten after the caller configured it (directly or through a helper inlined there), so the container is '
+                     'held to a bound nobody configured'))
+    n_c = 0
+    for c in sorted(prog.callers_of('VectorCache::new'), key=lambda c: (c.body.id, c.bb)):
+        if c.body.crate != 'kyrodb_engine' or not c.args:
+            continue
+        n_c += 1
+        e = flow.Origin(c.body).of_operand(c.args[0])
+        a = _as_given(e)
+        ctx.inst(rid, c.body.short.split('::{')[0], 'hands its own capacity parameter to VectorCache::new', a is not None, 'VectorCache::new(%s)' % flow.render(e)[:120])
+    ctx.floor(rid, 'VectorCache::new call sites in the engine', n_c, 3, 'LruCacheStrategy::new, LearnedCacheStrategy::new, ::new_with_semantic')
 
 
 def _explore_vars(body, atoms, mark_edges, stop):
